@@ -73,6 +73,7 @@ package driver
 //@       && forall j int :: 0 <= j && j < len($arg0) ==> elem_addr($arg0, j) == elem_addr(sources, start + j)
 //@   callsite concurrentGrab pre: $arg3 != nil
 //@   callsite combineProfiles both: p != nil && chunkP != nil
+//@   callsite combineProfiles order: len($arg0) == 2 && $arg0[0] == p && $arg0[1] == chunkP && len($arg1) == 2 && $arg1[0] == msrc && $arg1[1] == chunkMsrc
 //@   loop 1
 //@     invariant 0 <= start && start % 128 == 0 && ui != nil
 
@@ -123,3 +124,11 @@ package driver
 //@   mustcall combineProfiles merged: true when $res1 == nil && pbase != nil
 //@   callsite Profile.SetLabel only_diffbase: s.DiffBase && $arg0 == pbase
 //@   callsite Profile.Normalize only_normalize: s.Normalize && $arg1 == pbase
+
+// ---- C16: grabSourcesAndBases — success means at least one source was fetched and, when bases were requested, at least
+// one base; the profiles returned are the ones the two groups produced ----
+//@ func grabSourcesAndBases nosafety
+//@   atreturn src_nonempty: $res5 == nil ==> aftercall("WaitGroup.Wait", countsrc != 0)
+//@   atreturn base_nonempty: $res5 == nil && len(bases) > 0 ==> aftercall("WaitGroup.Wait", countbase != 0)
+//@   atreturn no_group_error: $res5 == nil ==> aftercall("WaitGroup.Wait", errsrc == nil && errbase == nil)
+//@   atreturn results: $res5 == nil ==> $res0 == aftercall("WaitGroup.Wait", psrc) && $res1 == aftercall("WaitGroup.Wait", pbase)
